@@ -565,6 +565,40 @@ func checkBytesCase(c bytesCase) ev.Outcome {
 			o.Finding = "reader-dependent-" + c.Kind
 			return o
 		}
+		// receiver reuse: the same bytes decoded into a value that already holds an
+		// earlier decode give the same error-ness and the same, equally usable value
+		if reusable(c.Kind) {
+			var d3 *decoded
+			var pe, e3 error
+			var b3 []byte
+			q := &querier{}
+			usable := e1 == nil && d1.inspect().size <= maxQuerySize
+			valid := false
+			g := run(func() {
+				d3, pe, e3 = decodeReused(c.Kind, data, c.Slow)
+				if pe == nil && e3 == nil && usable {
+					b3, _ = d3.encode()
+					if valid = d1.validate() == nil; valid {
+						d3.queryStructural(q)
+						d3.queryRegion(q)
+					}
+				}
+			})
+			if pe != nil {
+				return ev.Outcome{Err: "harness: the primer encoding does not decode: " + pe.Error(), Finding: "harness"}
+			}
+			if g.panicked || g.timedOut {
+				o.Err = fmt.Sprintf("decoding into a receiver that already held a decoded %s, or querying the result (step %s), panicked/hung: %s\n%s\n  kind=%s input=%s", c.Kind, q.step, g.panicVal, g.stack, c.Kind, short(data))
+				o.Finding = "receiver-reuse-" + c.Kind
+				return o
+			}
+			if (e1 == nil) != (e3 == nil) || (usable && !bytes.Equal(b1, b3)) {
+				o.Err = fmt.Sprintf("result depends on what the receiver held before: fresh receiver err=%v, reused receiver err=%v, re-encodings equal=%v\n  kind=%s input=%s",
+					e1, e3, bytes.Equal(b1, b3), c.Kind, short(data))
+				o.Finding = "receiver-reuse-" + c.Kind
+				return o
+			}
+		}
 	}
 	return o
 }
